@@ -501,7 +501,8 @@ func c15CloseFrameFails(c *core.Ctx) {
 }
 
 func c16HandlerError(c *core.Ctx) {
-	for round := 0; round < 6; round++ {
+	for round := 0; round < 12; round++ {
+		panics := round >= 6 // the handler panics on the message instead of returning an error; the application recovers
 		ec := fakes.NewExtConn()
 		ec.Script = peer([]string{"d", "d", "d"}[:1+round%3]...)
 		failAt := int32(1 + round%3) // the handler rejects the last healthy message
@@ -513,6 +514,9 @@ func c16HandlerError(c *core.Ctx) {
 					return err
 				}
 				if atomic.AddInt32(&seen, 1) == failAt {
+					if panics {
+						panic("handler cannot cope with this message")
+					}
 					return errors.New("handler does not like this message")
 				}
 				return nil
@@ -522,7 +526,14 @@ func c16HandlerError(c *core.Ctx) {
 		}
 		first := make(chan error, 1)
 		rest := make(chan error, 4)
-		go func() { first <- conn.Listen() }()
+		go func() {
+			defer func() {
+				if r := recover(); r != nil {
+					first <- fmt.Errorf("recovered: %v", r)
+				}
+			}()
+			first <- conn.Listen()
+		}()
 		select { // on the pinned code Listen keeps listening; a change may make it return here
 		case <-first:
 		case <-time.After(30 * time.Millisecond):
